@@ -51,6 +51,99 @@ theorem readoutsInpl_get {ros : List (Name × Fn)} {env env' : Env}
       have hne : (k == n) = false := by simpa using hk.1
       simp [Env.get, Env.set, List.lookup, hne]
 
+/-- appending entries under other names does not change what a name reads -/
+theorem get_append_of_not_key (l m : Env) {k : Name} (hk : k ∉ omKeys m) :
+    Env.get (l ++ m) k = Env.get l k := by
+  induction l with
+  | nil =>
+    simp only [List.nil_append]
+    induction m with
+    | nil => rfl
+    | cons x xs ih =>
+      obtain ⟨n, v⟩ := x
+      simp only [omKeys, List.map_cons, List.mem_cons, not_or] at hk
+      have hne : (k == n) = false := by simpa using hk.1
+      simp only [Env.get, List.lookup, hne] at ih ⊢
+      exact ih (by simpa [omKeys] using hk.2)
+  | cons x xs ih =>
+    obtain ⟨n, v⟩ := x
+    by_cases h : (k == n) = true
+    · simp [Env.get, List.lookup, h]
+    · have hne : (k == n) = false := by simpa using h
+      simp only [List.cons_append, Env.get, List.lookup, hne] at ih ⊢
+      exact ih
+
+theorem evalReadouts_get {ros : List (Name × Fn)} {scope raw env' : Env}
+    (h : evalReadouts ros scope raw = .ok env') {k : Name} (hk : k ∉ omKeys ros) :
+    Env.get env' k = Env.get raw k := by
+  induction ros generalizing scope raw with
+  | nil => simp [evalReadouts, pure, Except.pure] at h; subst h; rfl
+  | cons x xs ih =>
+    obtain ⟨n, f⟩ := x
+    simp only [evalReadouts, bind, Except.bind] at h
+    split at h
+    · cases h
+    · rename_i v _
+      simp [omKeys] at hk
+      rw [ih h (by simpa [omKeys] using hk.2)]
+      have hne : (k == n) = false := by simpa using hk.1
+      simp [Env.get, Env.set, List.lookup, hne]
+
+/-- the readouts in dependency order are readouts of the model -/
+theorem mapM_lookup_keys {ros : List (Name × Fn)} {decl : List (Name × Fn)} :
+    ∀ (order : List Name), order.mapM (fun k => match decl.lookup k with
+        | some f => (pure (k, f) : Except Err (Name × Fn))
+        | none => .error (.keyError k)) = .ok ros → ∀ k ∈ omKeys ros, k ∈ omKeys decl := by
+  intro order
+  induction order generalizing ros with
+  | nil => intro h k hk; simp [pure, Except.pure] at h; subst h; simp [omKeys] at hk
+  | cons a as ih =>
+    intro h k hk
+    simp only [List.mapM_cons, bind, Except.bind] at h
+    split at h
+    · cases h
+    · rename_i x hx
+      split at h
+      · cases h
+      · rename_i rest hrest
+        simp only [pure, Except.pure, Except.ok.injEq] at h
+        subst h
+        simp only [omKeys, List.map_cons, List.mem_cons] at hk
+        rcases hk with hk | hk
+        · subst hk
+          cases hl : decl.lookup a with
+          | none => simp [hl] at hx
+          | some f =>
+            simp only [hl, pure, Except.pure, Except.ok.injEq] at hx
+            subst hx
+            obtain ⟨k', hm⟩ := (show ∃ k', (k', f) ∈ decl from by
+              clear ih hrest
+              induction decl with
+              | nil => simp [List.lookup] at hl
+              | cons y ys ihd =>
+                obtain ⟨n, w⟩ := y
+                simp only [List.lookup] at hl
+                split at hl
+                · cases hl; exact ⟨n, by simp⟩
+                · obtain ⟨k', hk'⟩ := ihd hl; exact ⟨k', by simp [hk']⟩)
+            clear hm k'
+            -- the key found by lookup is `a` itself
+            have : a ∈ omKeys decl := by
+              clear ih hrest
+              induction decl with
+              | nil => simp [List.lookup] at hl
+              | cons y ys ihd =>
+                obtain ⟨n, w⟩ := y
+                simp only [List.lookup] at hl
+                split at hl
+                · rename_i heq
+                  have : a = n := by simpa using heq
+                  simp [omKeys, this]
+                · simp only [omKeys, List.map_cons, List.mem_cons]
+                  exact .inr (ihd hl)
+            exact this
+        · exact ih hrest k (by simpa [omKeys] using hk)
+
 theorem filter_get (dk : List Name) (env : Env) {k : Name} (hk : k ∉ dk) :
     Env.get (env.filter fun kv => !dk.contains kv.1) k = Env.get env k := by
   induction env with
@@ -218,10 +311,20 @@ theorem row_agrees {c : Content} {cache : Cache} {t : Rat} {s full : Row} {dep :
       · exact h
     split at hfull
     · cases hfull
-    · rename_i env2 henv2
-      have e1 : Env.get (("time", t) :: full) k = Env.get full k := by
-        simp [Env.get, List.lookup, hne]
-      rw [e1, selectRow_get hfull hrep, readoutsInpl_get henv2 (hok.notReadout k hk),
-        filter_get _ _ (hok.notData k hk)]
+    · rename_i env2 henv
+      split at henv
+      · cases henv
+      · rename_i ros hros
+        have hkros : k ∉ omKeys ros := by
+          intro hin
+          unfold sortedReadouts at hros
+          simp only [bind, Except.bind] at hros
+          split at hros
+          · cases hros
+          · exact hok.notReadout k hk (mapM_lookup_keys _ hros k hin)
+        have e1 : Env.get (("time", t) :: full) k = Env.get full k := by
+          simp [Env.get, List.lookup, hne]
+        rw [e1, selectRow_get hfull hrep, evalReadouts_get henv hkros,
+          filter_get _ _ (hok.notData k hk)]
 
 end Mxl.C10
